@@ -183,6 +183,13 @@ type Exec struct {
 	allowIDCollide bool
 	raised     bool
 	panicWhere string
+	encoded    map[*Str][]*Term
+	macs       []*macRec
+	keyPairs   []*keyPair
+	signedMsgs []*signedRec
+	randReads  [][]*Term
+	concRandom bool
+	concRandN  uint64
 }
 
 func (x *Exec) end(status, msg string) {
